@@ -240,16 +240,19 @@ func checkC01(c *Ctx) {
 			return nil, ""
 		}
 		decl := c.P.Decls[f]
+		finfo := c.P.DeclPkg[f].TypesInfo
 		var out []string
 		ast.Inspect(decl.Body, func(n ast.Node) bool {
 			switch x := n.(type) {
 			case *ast.KeyValueExpr:
 				if hint == "hasBody" && types.ExprString(x.Key) == "hasBody" {
-					out = verbSet(x.Value)
+					out = c.P.ConstCompareSet(finfo, x.Value)
 				}
 			case *ast.IfStmt:
-				if hint != "hasBody" && strings.Contains(types.ExprString(x.Cond), hint) && len(verbSet(x.Cond)) > 0 && out == nil {
-					out = verbSet(x.Cond)
+				if hint != "hasBody" && out == nil {
+					if vs := c.P.ConstCompareSet(finfo, x.Cond); len(vs) > 0 && (strings.Contains(types.ExprString(x.Cond), "ethod")) {
+						out = vs
+					}
 				}
 			}
 			return true
